@@ -1,6 +1,7 @@
 package internal
 
 import (
+	"bytes"
 	"encoding/xml"
 	"errors"
 	"fmt"
@@ -43,10 +44,31 @@ func DecodeXMLRequest(r *http.Request, v interface{}) error {
 		return HTTPErrorf(http.StatusBadRequest, "webdav: expected application/xml request")
 	}
 
-	if err := xml.NewDecoder(r.Body).Decode(v); err != nil {
+	dec := xml.NewDecoder(r.Body)
+	if err := dec.Decode(v); err != nil {
 		return &HTTPError{http.StatusBadRequest, err}
 	}
-	return nil
+
+	// Decode stops at the end of the root element: make sure that the rest
+	// of the body is what may follow it in a well-formed document
+	for {
+		tok, err := dec.Token()
+		if err == io.EOF {
+			return nil
+		} else if err != nil {
+			return &HTTPError{http.StatusBadRequest, err}
+		}
+		switch tok := tok.(type) {
+		case xml.Comment, xml.ProcInst:
+			// allowed
+		case xml.CharData:
+			if len(bytes.TrimSpace(tok)) != 0 {
+				return HTTPErrorf(http.StatusBadRequest, "webdav: unexpected content after the root element of the request body")
+			}
+		default:
+			return HTTPErrorf(http.StatusBadRequest, "webdav: unexpected content after the root element of the request body")
+		}
+	}
 }
 
 func IsRequestBodyEmpty(r *http.Request) bool {
